@@ -8,7 +8,8 @@ From Coq Require Import List String Ascii Bool Arith Permutation Sorted.
 From Spil Require Import Base.Str Base.Dict Base.Outcome Base.PyPath Resolva.Template Resolva.Resolver Conf.Conf Conf.WF Sid.Query Sid.Sid
   Sid.TypingSpec Sid.TypingProofs Sid.SidProofs Sid.QueryProofs Search.Unfold Search.FindList Search.GlobProofs Search.FindListProofs
   Search.UnfoldProofs Path.PathProofs Path.UnambiguousDefs Path.UnambiguousProofs Path.TotalDefs Path.TotalProofs
-  Search.UnfoldSpec Search.DenoteProofs Search.Finders FS.Fs Search.TreeListDefs Search.TreeListProofs.
+  Search.UnfoldSpec Search.DenoteProofs Search.Finders FS.Fs Search.TreeListDefs Search.TreeListProofs
+  Sid.NewlineLemmas Sid.NewlineProofs Sid.NewlineHits Sid.NewlineConf.
 From SpilGen Require Hamlet.
 Import ListNotations.
 Local Open Scope string_scope.
@@ -61,7 +62,12 @@ Print Assumptions C20_all.
 (* the theorems that need more than well-formedness: the same statement for ALL configurations passing the decidable checks
    on path templates and on the search configuration (each generated family member is shown to pass them at run time) *)
 Theorem C20_all_guarded : forall c Ld, load c = Some Ld -> wf_loadedb Ld = true ->
-  paths_unambiguousb Ld = true -> paths_totalb Ld = true -> unfold_conf_okb Ld = true ->
+  paths_unambiguousb Ld = true -> paths_totalb Ld = true -> unfold_conf_okb Ld = true -> nl_safe (r_tpls (l_sid Ld)) = true ->
+  (* C02 / C03 without any guard on the string *)
+  (forall x d', naturally_typed Ld x -> Permutation (s_fields x) d' -> sid_factory Ld (FromFields d') = Ok x) /\
+  (forall x i, naturally_typed Ld x -> 1 <= i <= List.length (s_fields x) ->
+     exists y, get_as Ld x (nth (i - 1) (map fst (s_fields x)) "") = Ok y /\ s_fields y = firstn i (s_fields x) /\
+               s_string y = join "/" (firstn i (split_c "/" (s_string x))) /\ sid_bool y = true) /\
   (* C05 round trip *)
   (forall x cfg p, naturally_typed Ld x -> concrete Ld x -> path_values_ok x ->
      sid_path Ld x cfg = Ok (Some p) -> sid_of_path Ld p cfg = Ok x) /\
@@ -76,7 +82,9 @@ Theorem C20_all_guarded : forall c Ld, load c = Some Ld -> wf_loadedb Ld = true 
      forall s, In s l <-> exists e q, In e E /\ In q qs /\ s = s_string e /\ s_type e = s_type q /\
                                       glob_rel (s_string q) (s_string e)).
 Proof.
-  intros c Ld Hl Hw Hu Ht Hc. repeat split.
+  intros c Ld Hl Hw Hu Ht Hc Hn. split; [|split]; [| |repeat split].
+  - intros x d' H1 H2. exact (roundtrip_fields_conf c Ld Hl Hw Hn x d' H1 H2).
+  - intros x i H1 H2. exact (get_as_prefix_conf c Ld Hl Hw Hn x i H1 H2).
   - intros x cfg p H1 H2 H3 H4. exact (roundtrip c Ld x cfg p Hl Hw Hu H1 H2 H3 H4).
   - intros p cfg pc H. exact (path_never_raises c Ld p cfg pc Hl Hw Hu Ht H).
   - exact (proj1 (unfold_noquery_spec c Ld Hl Hw Hc s l H H0 x)).
